@@ -240,7 +240,7 @@ fn canon_strategy() -> BoxedStrategy<SpCase> {
                 steps.push(Step::Peer(PeerOp::DupAck(dups)));
             }
             steps.push(Step::Adv(150));
-            SpCase { sock, incoming, peer_isn, conn_id, peer_wnd: 4 << 20, complete_handshake: true, key, steps, linger_ms: 100, discipline: true }
+            SpCase { sock, incoming, peer_isn, conn_id, peer_wnd: 4 << 20, complete_handshake: true, key, steps, linger_ms: 100, discipline: true, bystander: None }
         })
         .boxed()
 }
